@@ -7,6 +7,7 @@ import (
 	"encoding/json"
 	"errors"
 	"fmt"
+	"strings"
 
 	"github.com/DataDog/datadog-traceroute/result"
 	"github.com/DataDog/datadog-traceroute/sack"
@@ -18,7 +19,7 @@ import (
 	"verif/simnet"
 )
 
-var caps = []string{"", "dsack-below-window", "fin-during-trace", "rstack-during-trace", "timestamps", "timestamps-bsd-option-order", "bsd-option-order", "duplicate-synack", "slow-synack", "isn-near-wrap", "no-sack-permitted", "plain-acks", "plain-acks-with-timestamps", "empty-sack-option", "half-sack-block", "closed", "no-handshake", "syn-dropped"}
+var caps = []string{"", "dsack-below-window", "fin-during-trace", "rstack-during-trace", "timestamps", "timestamps-bsd-option-order", "bsd-option-order", "duplicate-synack", "slow-synack", "isn-near-wrap", "no-sack-permitted", "plain-acks", "plain-acks-with-timestamps", "empty-sack-option", "half-sack-block", "closed", "no-handshake", "syn-dropped", "greeting-before-synack", "greeting-without-synack"}
 
 func unavailable(c string) bool {
 	return c == "no-sack-permitted" || c == "plain-acks" || c == "plain-acks-with-timestamps" || c == "empty-sack-option" || c == "half-sack-block" || c == "closed" || c == "syn-dropped"
@@ -31,10 +32,11 @@ func req(method, cap string, e2e int) proto.RTScn {
 
 func reqFor(method, cap string, e2e int) proto.RTScn {
 	r := req(method, cap, e2e)
-	if cap == "syn-dropped" {
-		// an address on the local subnet that nobody owns: the kernel's SYN is never answered and the dial times out (real time: 300 ms)
-		r.Hostname, r.UseListenerPort, r.Port = "198.18.0.50", false, 4433
+	if strings.HasPrefix(cap, "greeting-") {
+		r.FiltersOff = true
 	}
+	// ("syn-dropped": the connect's SYN is never answered - modelled on the virtual clock by the net.Dialer stand-in, which
+	// gives up at the dialer's own timeout; the target is silent towards SYN probes as well)
 	return r
 }
 
@@ -43,8 +45,8 @@ func gen(tier string) []proto.RTItem {
 	for _, m := range []string{"sack", "prefer_sack", "syn", ""} {
 		for _, c := range caps {
 			for _, e2e := range []int{0, 2} {
-				if c == "syn-dropped" && (e2e > 0 || m == "syn" || m == "") {
-					continue // costs one real dial timeout per execution: only where it matters
+				if c == "syn-dropped" && (m == "syn" || m == "") {
+					continue // (no connect is made)
 				}
 				items = append(items, proto.RTItem{Scn: reqFor(m, c, e2e), Class: fmt.Sprintf("method=%q/capability=%q/e2e=%d/no-fault", m, c, e2e)})
 			}
@@ -120,7 +122,7 @@ func check(it *proto.RTItem, r *proto.RTResult) []proto.Issue {
 		if r.Err == nil && sackTrace == 0 {
 			out = append(out, proto.Issue{Key: "sack-success-without-sack-trace", Detail: r.Summary()})
 		}
-		if r.Err == nil && (unavailable(sc.Capability) || sc.Capability == "no-handshake") {
+		if r.Err == nil && (unavailable(sc.Capability) || (sc.Capability == "no-handshake" || sc.Capability == "greeting-without-synack")) {
 			out = append(out, proto.Issue{Key: "sack-success-on-incapable-target", Detail: r.Summary()})
 		}
 	case "prefer_sack":
@@ -139,7 +141,7 @@ func check(it *proto.RTItem, r *proto.RTResult) []proto.Issue {
 			} else if synTrace == 0 {
 				out = append(out, proto.Issue{Key: "no-syn-trace-when-sack-unavailable", Detail: r.Summary()})
 			}
-		case sc.Capability == "no-handshake":
+		case (sc.Capability == "no-handshake" || sc.Capability == "greeting-without-synack"):
 			if synTrace > 0 || r.Err == nil {
 				out = append(out, proto.Issue{Key: "failure-masked-by-fallback", Detail: fmt.Sprintf("handshake never captured: synTraces=%d err=%v", synTrace, r.Err)})
 			}
